@@ -7,7 +7,7 @@ from debian._util import resolve_ref, _strI
 from debian._deb822_repro._util import BufferingIterator
 
 try:
-    from typing import Optional, cast, TYPE_CHECKING, Iterable, Union, Dict, Callable
+    from typing import Optional, cast, TYPE_CHECKING, Iterable, Union, Dict, Callable, List
 except ImportError:
     TYPE_CHECKING = False
     cast = lambda t, v: v
@@ -416,12 +416,28 @@ def tokenize_deb822_file(sequence: Iterable[Union[str, bytes]]) -> Iterable[Deb8
             yield Deb822ErrorToken(line)
 
 
+def _split_lines_keepends(text):
+    # type: (str) -> List[str]
+    """Split text into lines at "\\n" only, keeping the line endings
+
+    Unlike str.splitlines, this does not split at form feeds, NEL, U+2028 and
+    the other characters that Python (but not deb822) considers line
+    boundaries; they are ordinary (whitespace) characters of a value.
+    """
+    lines = text.split("\n")
+    last_line = lines.pop()
+    lines = [line + "\n" for line in lines]
+    if last_line:
+        lines.append(last_line)
+    return lines
+
+
 def _value_line_tokenizer(func):
     # type: (Callable[[str], Iterable[Deb822Token]]) -> (Callable[[str], Iterable[Deb822Token]])
     def impl(v):
         # type: (str) -> Iterable[Deb822Token]
         first_line = True
-        for line in v.splitlines(keepends=True):
+        for line in _split_lines_keepends(v):
             assert not _RE_WHITESPACE_LINE.match(v)
             # Only continuation lines can be comments: text that follows the
             # field separator on the first line is a value even if it starts
